@@ -959,6 +959,9 @@ func (g *gctx) genStmt1(lv int, out *[]string) bool {
 			label := ""
 			if g.r.Intn(3) == 0 {
 				label = fmt.Sprintf("t%d", g.nloop)
+				if g.r.Intn(2) == 0 {
+					label = g.depthLabel()
+				}
 			}
 			g.nloop++
 			dot := ""
@@ -1005,12 +1008,23 @@ func (g *gctx) genNumNoRef(w wty, d int, lo, hi *big.Int, avoid string) ex {
 	return g.constEx(lo, hi)
 }
 
+// depthLabel names a loop after its nesting depth: distinct from the labels of
+// the enclosing loops (all that the language demands), but shared by sibling
+// loops of the same method (C labels, however, have function scope).
+func (g *gctx) depthLabel() string {
+	g.count("stmt:label-shared-by-siblings")
+	return fmt.Sprintf("d%d", len(g.loops))
+}
+
 func (g *gctx) genWhile(lv int, out *[]string) {
 	emit := func(s string) { *out = append(*out, ind(lv)+s) }
 	ctr := fmt.Sprintf("c%d", g.nloop)
 	label := ""
 	if g.r.Intn(2) == 0 {
 		label = fmt.Sprintf("w%d", g.nloop)
+		if g.r.Intn(2) == 0 {
+			label = g.depthLabel()
+		}
 	}
 	g.nloop++
 	n := 1 + g.r.Intn(5)
